@@ -275,7 +275,11 @@ func (c13) Exec(sc *sim.Scenario, env *sim.Env) *sim.Violation {
 		if base > 0xFE0000 {
 			base = 0xFE0000
 		}
-		rd := &realDev{data: make([]byte, 0x20000), offset: base, rom: i%2 == 1}
+		size := 0x20000
+		if i == 0 && sc.Seed&32 != 0 {
+			size = 0x1FFE0 // not a power of two (a RAM that folds addresses with a mask gets this wrong)
+		}
+		rd := &realDev{data: make([]byte, size), offset: base, rom: i%2 == 1}
 		if i == 2 {
 			// the library's I/O register placeholder
 			hw := &memory.FakeHW{}
